@@ -93,6 +93,7 @@ type State struct {
 	facts   map[string]bool
 	known   map[string]uint64
 	factsShared bool
+	tainted map[*Obj]bool
 }
 
 func (s *State) clone() *State {
@@ -129,6 +130,12 @@ func (s *State) clone() *State {
 	n.quants = append([]*Quant(nil), s.quants...)
 	s.factsShared = true
 	n.factsShared = true
+	if s.tainted != nil {
+		n.tainted = make(map[*Obj]bool, len(s.tainted))
+		for k := range s.tainted {
+			n.tainted[k] = true
+		}
+	}
 	n.axioms = append([]*Term(nil), s.axioms...)
 	n.rangeApps = append([]*rangeApp(nil), s.rangeApps...)
 	n.trace = append([]string(nil), s.trace...)
@@ -357,6 +364,17 @@ func (e *Exec) heapGet(s *State, o *Obj) Value {
 	if v, ok := s.heap.m[o]; ok {
 		return v
 	}
+	if s.tainted != nil && s.tainted[o] {
+		// modified by unknown code before it was ever read: not its entry value
+		var v Value
+		if o.IsArr {
+			v = e.freshArr(o.Typ, "tv."+o.Name)
+		} else {
+			v = e.freshValS(s, o.Typ, "tv."+o.Name)
+		}
+		s.heap.m[o] = v
+		return v
+	}
 	if v, ok := e.lazyInit[o]; ok {
 		return v
 	}
@@ -528,6 +546,35 @@ func (e *Exec) store(s *State, r *Ref, v Value) {
 	}
 	old := e.heapGet(s, r.Obj)
 	s.heap.m[r.Obj] = e.update(old, r.Path, v)
+	e.noteWriteField(s, r)
+}
+
+// noteWriteField records a write through reference r for the enclosing loops: at the granularity of the
+// first-level field when r addresses a field of a struct object, else the whole object.
+func (e *Exec) noteWriteField(s *State, r *Ref) {
+	if len(s.loops) == 0 {
+		return
+	}
+	if len(r.Path) > 0 && r.Path[0].Index == nil && !r.Obj.IsArr {
+		if _, ok := r.Obj.Typ.Underlying().(*types.Struct); ok {
+			key := fmt.Sprintf("%s#f%d", r.Obj.Name, r.Path[0].Field)
+			for _, li := range s.loops {
+				if r.Obj.Birth >= li.entryStep {
+					continue
+				}
+				hs := e.loopHavoc[li.key]
+				if hs == nil {
+					hs = map[string]bool{}
+					e.loopHavoc[li.key] = hs
+				}
+				if !hs[r.Obj.Name] && !hs[key] {
+					hs[key] = true
+					e.restart = true
+				}
+			}
+			return
+		}
+	}
 	e.noteWrite(s, r.Obj)
 }
 
@@ -576,8 +623,8 @@ func (e *Exec) counter(kindPrefix string, key ssa.Instruction) int {
 
 // emit records an obligation "pc => goal".
 func (e *Exec) emit(s *State, kind string, goal *Term, pos token.Pos) {
-	if s.pure > 0 {
-		return
+	if s.pure > 0 || e.restart {
+		return // (a run whose loop havoc sets were incomplete is only scouting: its obligations are discarded)
 	}
 	ob := &Obligation{Name: e.oblName(kind), Kind: kind, Fn: e.fnKey(), Goal: goal.S}
 	if pos.IsValid() {
@@ -620,6 +667,9 @@ func (e *Exec) batch(s *State, from int) {
 
 // emitProbe records a satisfiability probe (expected sat) for vacuity detection.
 func (e *Exec) emitProbe(s *State, kind string) {
+	if e.restart {
+		return
+	}
 	ob := &Obligation{Name: e.oblName(kind), Kind: kind, Fn: e.fnKey(), Probe: true}
 	ob.SMT, _ = e.buildQuery(s, nil)
 	ob.Trace = append([]string(nil), s.trace...)
@@ -646,9 +696,8 @@ func (e *Exec) runAll(init *State) {
 			return
 		}
 		e.runPath(s)
-		if e.restart {
-			return
-		}
+		// when a loop's havoc set turned out to be incomplete the run continues (collecting every missing
+		// object in one pass); its obligations are discarded and the function is explored again
 	}
 }
 
@@ -1105,6 +1154,25 @@ func (e *Exec) loopEnter(s *State, f *Frame, li *loopInfo, from *ssa.BasicBlock)
 	if hs != nil {
 		names := sortedKeys(hs)
 		for _, n := range names {
+			if i := strings.LastIndex(n, "#f"); i > 0 {
+				// one field of a struct object
+				if hs[n[:i]] {
+					continue
+				}
+				var fi int
+				if _, err := fmt.Sscanf(n[i+2:], "%d", &fi); err != nil {
+					continue
+				}
+				if o := e.findObj(s, n[:i]); o != nil {
+					if st, ok := o.Typ.Underlying().(*types.Struct); ok && fi < st.NumFields() {
+						r := &Ref{Obj: o, Path: []PElem{{Field: fi}}}
+						old := e.load(s, r)
+						nv := e.freshLike(s, old, st.Field(fi).Type(), "lh."+n)
+						s.heap.m[o] = e.update(e.heapGet(s, o), r.Path, nv)
+					}
+				}
+				continue
+			}
 			if o := e.findObj(s, n); o != nil {
 				e.havocObjForLoop(s, o, key)
 			}
